@@ -119,6 +119,7 @@ class World:
     # ---- operations -----------------------------------------------------------------------------
     def apply(self, op, a):
         exc, extra = NONE, {}
+        before = {s: (id(r), r._basis) for s, r in self.rx.items() if r is not None}
         try:
             with warnings.catch_warnings():
                 warnings.simplefilter('ignore')
@@ -126,7 +127,10 @@ class World:
         except Exception as e:
             exc = type(e).__name__
             extra = dict(msg=str(e)[:200])
-        obs = dict(exc=exc, same=False, reduced_m=[], held_agree=self._held_agree(), too_big=False)
+        # an object that is still in its slot keeps its basis (re-basing is only ever done on copies); the molar meaning is
+        # compared by the projection, which is basis-free
+        rebased = [s for s, (oid, b) in before.items() if self.rx.get(s) is not None and id(self.rx[s]) == oid and self.rx[s]._basis != b]
+        obs = dict(exc=exc, same=False, reduced_m=[], held_agree=self._held_agree(), too_big=False, rebased=bool(rebased))
         obs.update(extra)
         return obs
 
